@@ -127,9 +127,14 @@ class Sym:
 
 # ---------------------------------------------------------------------- term utilities
 def alts(t):
-    """Alternatives of a term (a set with the term itself when it is not an `alt`)."""
+    """Alternatives of a term: members of an `alt`, both arms of a conditional expression (recursively)."""
     if isinstance(t, tuple) and t and t[0] == 'alt':
-        return set(t[1])
+        res = set()
+        for a in t[1]:
+            res |= alts(a)
+        return res
+    if isinstance(t, tuple) and t and t[0] == 'ifexp':
+        return alts(t[2]) | alts(t[3])
     return {t}
 
 
